@@ -59,6 +59,10 @@ def run_scenario(item):
                 out['notes'].append('admin SHOW failed')
                 return
             mine = [r for r in crow if r['database'] == 'db' and r['user'] == 'u']
+            stray = [r for r in crow if not (r['database'] == 'db' and r['user'] == 'u')
+                     and not (r['database'] == 'pgcat' and r['user'] == 'admin')]
+            lrow, ok5 = rows_of(admin, 'SHOW LISTS')
+            lists = {r['list']: int(r['items']) for r in lrow} if ok5 else {}
             names = [r['application_name'] for r in mine]
             cl = {}
             for r in mine:
@@ -74,7 +78,8 @@ def run_scenario(item):
             live = len([s for s in be.live_sessions() + be1.live_sessions() if s.user == 'u'])
             recs.append({'ev': 'servers', 'live': live})
             recs.append({'ev': 'sample', 'clients': cl, 'duplicate_rows': len(names) != len(set(names)), 'pools': pools,
-                         'server_rows': len(srv), 'totals': totals, 'kinds': list(kinds)})
+                         'server_rows': len(srv), 'totals': totals, 'kinds': list(kinds), 'stray_rows': len(stray),
+                         'lists_clients': lists.get('free_clients', -1) + lists.get('used_clients', 0)})
 
         def request(n, sql=None, raw=None, ends=None):
             c = clients[n]
@@ -162,6 +167,15 @@ def run_scenario(item):
                     out['notes'].append('request for a missing shard was executed')
                 else:
                     out['notes'].append('refused request: ' + rep.brief()[:80])
+            elif op == 'cancel':
+                # a CancelRequest connection, with the key of a connected client or with a key nobody holds
+                kinds.append('cancel')
+                from .client import send_cancel
+                if a == 'valid' and n in clients and clients[n].key:
+                    send_cancel(w.port, clients[n].key[0], clients[n].key[1])
+                else:
+                    send_cancel(w.port, rng.randrange(1, 2 ** 31), rng.randrange(1, 2 ** 31))
+                time.sleep(0.05)
             elif op == 'leave' and n in clients:
                 c = clients.pop(n)
                 if a == 'clean':
@@ -197,7 +211,7 @@ def check_c18(prop, tier, seed):
     v.add_mc('mc:design', res)
     if res.rc != 0:
         v.tool_error('Stats design rc=%d %s' % (res.rc, res.errors()[:2]))
-    for d in ('abnormal_exit_keeps_row', 'copy_counts_twice', 'refused_request_leaves_waiting'):
+    for d in ('abnormal_exit_keeps_row', 'copy_counts_twice', 'refused_request_leaves_waiting', 'cancel_registers_client'):
         r2 = tlc.run_tlc('Stats', 'MC_Stats_dev_%s.cfg' % d, workers=4)
         v.add_mc('mc:dev:' + d, r2)
         if not r2.invariant_violated:
